@@ -45,6 +45,13 @@ READY = True
 ACTIONS = ["CSRR", "CSRW", "ADD", "AND", "SLL", "SRL", "ADDI", "LW", "SW", "BNE"]
 
 CFGS_QUICK = [(0, 0, 0, 1), (2, 3, 0.5, 3)]
+# deterministic timing grid (no random stalls): memory latency x sink delay; a stalled sink / memory holds an
+# older instruction in W / M while the fetch latency leaves bubbles behind a younger one.  Every hazard
+# program runs under ONE grid point besides the standard configurations (quick; they rotate over the programs,
+# so every point meets every kind of pattern), under a third of the grid in the thorough tier.
+# Added after seeded change C20-E (a taken bne stalled in X behind a csrw waiting for the sink, with a bubble
+# in D: only memory latency 2 with sink delay >= 3 shows it).
+CFGS_GRID = [(0, sd, 0, lat) for lat in (2, 1, 3, 4) for sd in (3, 8, 0)] + [(2, 3, 0, 2), (1, 5, 0, 2)]
 CFGS_THOROUGH = [(0, 0, 0, 1), (2, 3, 0.5, 3), (0, 0, 0, 2), (3, 0, 0, 1), (0, 4, 0.3, 1), (1, 1, 0.5, 5)]
 
 
@@ -348,13 +355,16 @@ def _procs(res, quick):
     for k, v in stats.items():
         res.note(k, v)
     # hazard programs run under fewer configurations in the thorough tier (they are many)
-    tasks, asm, secs = [], {}, {}
+    tasks, asm, secs, pcs = [], {}, {}, {}
     for pi, p in enumerate(progs):
         asm[pi] = p.asm()
         if p.meta["kind"] == "random":
             pc = cfgs
         else:
-            pc = cfgs[:2] if quick else cfgs[:3]
+            pc = list(cfgs[:2] if quick else cfgs[:3])
+            ng = 1 if quick else 5
+            pc += [CFGS_GRID[(pi * ng + j) % len(CFGS_GRID)] for j in range(ng)]
+        pcs[pi] = pc
         for lvl in sim.LEVELS:
             for ci, c in enumerate(pc):
                 tasks.append(((pi, lvl, ci), asm[pi], p.data, p.inq, lvl, c, gen.SENT, p.meta["steps"]))
@@ -414,7 +424,7 @@ def _procs(res, quick):
                 continue
             for (_, lvl, ci) in who[pi][k - 1]:
                 o = results[(pi, lvl, ci)]
-                c = (cfgs if p.meta["kind"] == "random" else cfgs)[ci]
+                c = pcs[pi][ci]
                 got = None
                 if clause.startswith("out") and 0 < idx <= len(o["out"]):
                     got = o["out"][idx - 1]
